@@ -45,6 +45,8 @@ def run(tier):
     rnd = random.Random(common.seed())
     bd = common.build("asan")
     wd = common.workdir("c03")
+    r = common.tlc("HeaderImpl", "MC_HeaderImpl.cfg", workers=16, timeout=900, heap="8g")
+    ck.require_ok("HeaderImpl", r); ck.add_tlc("HeaderImpl/MC_HeaderImpl.cfg (NoReadPastEnd, SectionsInside, IndexNonEmptyAndCounted)", r, "every header body of up to 10 cells over 5 byte classes")
     inputs = []   # (name, bytes)
     for (name, hb, plain) in hdrfam.family(rnd, tier):
         h = ref.parse_header(hb)
